@@ -1,21 +1,58 @@
-(* C07 - remove_formatting.  Statements only.  remove_fmt models AnsiString.remove_formatting after the
-   settings have been scrubbed (as repaired, known_findings F8 F10 F24); clear_fmt models clear_formatting. *)
+(* C07 - remove_formatting removes exactly the requested settings, only inside the range.
+   Statements only.  remove_fmt models AnsiString.remove_formatting after the settings have been
+   scrubbed (as repaired, known_findings F8 F10 F24); clear_fmt models clear_formatting.
+   rm_wf is the reachable-value invariant: change points strictly increasing, no object active twice,
+   the library's strict self-check passes, no change point beyond the text, nothing left open.
+   `keep sel l` = l without every setting whose text equals one of the given ones (all, when sel = None),
+   in the old relative order; active_at (tbl s) k is what ansi_settings_at(k) reports. *)
 From AS Require Import Base.
 From AS.Model Require Import Table Ops.
-From AS.Proofs Require Import TableProofs BasicProofs.
+From AS.Proofs Require Import TableProofs SliceProofs PadProofs RemoveProofs.
 
 Theorem C07_text : forall s sel st en, base (remove_fmt s sel st en) = base s.
-Proof. exact remove_fmt_base. Qed.
+Proof.
+  intros. unfold remove_fmt. destruct (range_empty _ _ _); [reflexivity | apply remove_core_base].
+Qed.
 Print Assumptions C07_text.
 
+(* an empty slice-normalised range is a no-op *)
 Theorem C07_noop : forall s sel st en,
-  let len := length (base s) in
-  let i := slice_idx len st 0 in let j := slice_idx len en len in
-  (len <= i \/ j <= i) -> remove_fmt s sel st en = s.
-Proof. intros s sel st en len i j H. apply remove_fmt_noop_range. apply range_empty_spec. exact H. Qed.
+  range_empty (length (base s)) (slice_idx (length (base s)) st 0)
+              (slice_idx (length (base s)) en (length (base s))) = true ->
+  remove_fmt s sel st en = s.
+Proof. exact remove_fmt_noop. Qed.
 Print Assumptions C07_noop.
 
-(* clear_formatting(): same text, no settings on any character *)
-Theorem C07_clear : forall s, base (clear_fmt s) = base s /\ forall k, active_at (tbl (clear_fmt s)) k = [].
-Proof. exact clear_fmt_spec. Qed.
+(* inside [i, j): the previous settings minus the selected ones, the remaining OBJECTS in their old
+   order; outside (before and after): the same objects in the same order - hence the same precedence
+   and the same displayed style; and the result satisfies the invariant again *)
+Theorem C07_remove : forall s sel st en,
+  let len := length (base s) in
+  let i := slice_idx len st 0 in
+  let j := slice_idx len en len in
+  let r := remove_fmt s sel st en in
+  rm_wf s -> range_empty len i j = false ->
+  base r = base s
+  /\ (forall k, k < i -> active_at (tbl r) k = active_at (tbl s) k)
+  /\ (forall k, i <= k < j -> active_at (tbl r) k = keep sel (active_at (tbl s) k))
+  /\ (forall k, j <= k -> active_at (tbl r) k = active_at (tbl s) k)
+  /\ rm_wf r.
+Proof. exact remove_fmt_spec. Qed.
+Print Assumptions C07_remove.
+
+(* settings=None removes everything inside the range *)
+Theorem C07_remove_all : forall s start en, rm_hyps s start en ->
+  forall k, start <= k < en -> active_at (tbl (remove_core s None start en)) k = [].
+Proof. exact remove_core_all. Qed.
+Print Assumptions C07_remove_all.
+
+(* clear_formatting(): same text, no settings on any character, invariant holds *)
+Theorem C07_clear : forall s,
+  base (clear_fmt s) = base s /\ (forall k, active_at (tbl (clear_fmt s)) k = []) /\ rm_wf (clear_fmt s).
+Proof. exact clear_fmt_full. Qed.
 Print Assumptions C07_clear.
+
+(* non-vacuity: a table with two equal-valued settings of different identity and a third one,
+   range [1,4) cutting through all of them *)
+Example C07_example := Ex.s0_hyps.
+Example C07_example_result := Ex.s0_result.
